@@ -40,6 +40,10 @@ LINTER_SECTIONS = [
     "stateless-class",
     "pipeline",
     "lazy-ignores",
+    "performance",
+    "unwrap-abuse",
+    "clone-abuse",
+    "blocking-async",
 ]
 
 
